@@ -132,7 +132,10 @@ func cliRun(src, mode string, alloc int) (stdout, stderr string, failed, ok bool
 		return "", "", false, false
 	}
 	defer os.Remove(name)
-	args := []string{"run", "--types", mode, "--optimize", "0"}
+	// extensions on for both runs (the Ego-flavoured programs use try/catch);
+	// given explicitly because some options persist settings in the profile,
+	// which would make the second run of a pair differ from the first
+	args := []string{"--set", "ego.compiler.extensions=true", "run", "--types", mode, "--optimize", "0"}
 	if alloc > 0 {
 		args = append(args, "--symbol-allocation", fmt.Sprint(alloc))
 	}
